@@ -483,7 +483,11 @@ def b5(ctx, F, nodes):
     cur = None
     for s in stmts:
         if s.get("k") == "SLet" and s["pat"].get("k") == "PBind" and s.get("init") is not None:
-            v = hir.canon(hir.Sym(hir.Env(nd.fn["hir"], F), F)(s["init"]))
+            # a local that captured game.player() before anything is played reads as game.player() here
+            plays = [(x.get("sp") or [0, 0])[:2] for x, _ in hir.walk(nd.body) if x.get("k") == "MethodCall"
+                     and hir.callee_of(x) in ("chess::Game::push", "chess::Game::pop")]
+            before = not plays or list((s.get("sp") or [0, 0])[:2]) < min(plays)
+            v = hir.canon(hir.Sym(hir.Env(nd.fn["hir"], F), F, through=before)(s["init"]))
             t = hir.fmt(v, 120)
             if "Game::score(game)" in t:
                 cur = (s["pat"]["name"], t)
